@@ -35,6 +35,15 @@ CHECKS = {
  "C15": dict(cat="fault_enumeration", tech="fault injection at the per-operator output hook (error|panic at chunk k / end of stream) + differential against the fault-free run",
    text="For every operator of the executed plan (observed through the hook) errors and panics are injected at first/middle/last chunk and at end-of-stream, each in its own execution; the statement must fail, or return exactly the fault-free rows; failed INSERT..SELECT / DELETE must leave the target unchanged. Memory and disk engines, current- and multi-thread runtimes.",
    note="Not injected at the output of the INSERT/DELETE operator itself (post-commit). Benign = fired but result identical.", ref="6 C15"),
+ "C08": dict(cat="exploration", tech="schedule-perturbed concurrency runs (hook yield points, paused clock, directed gates) + boundary history oracle + online trace specification over version-manager events",
+   text="Storage-level readers, SQL writers, drop table, and the engine's own compactor/vacuum share one database; the handler perturbs the schedule at 11 hook points. A reader's rows must equal the model for an admissible per-session prefix of writer statements; no reader may fail; a row-set may never be selected for vacuum while a pinned epoch contains it (checked on events emitted under the version manager's lock).",
+   note="Current-thread runtime with paused clock: interleavings at hook points / existing awaits. Evidence reports distinct interleaving signatures and how many readers overlapped writes.", ref="6 C08"),
+ "C09": dict(cat="exploration", tech="schedule-perturbed concurrency runs with an order-independent conservation oracle (unique ids: final = acked inserts - acked deletes)",
+   text="2-4 SQL clients insert unique ids and delete ids they saw acknowledged while compaction/vacuum passes run at perturbed / gated hook points inside Compactor::run and transaction start/commit; the final content (and the content after reopen) must be acked inserts minus acked deletes; failed statements must have no effect.",
+   note="Conflict errors of DELETE vs compaction are unacknowledged statements. Current-thread + paused clock; long parking sleeps let whole compactor passes run inside a statement.", ref="6 C09"),
+ "C10": dict(cat="exploration", tech="client-boundary history recording + offline serial-order search (DFS with memoisation) against a sequential model; multi-thread stress legs",
+   text="2-4 sessions with CREATE/DROP TABLE on colliding names, INSERT, DELETE, SELECT run concurrently on current-thread (perturbed) and multi-thread (2-16 workers) runtimes; a checker searches for a serial order consistent with session order that reproduces every acknowledged result, explains every failure and yields the final state, which must also be there after reopen; panics and stuck sessions are violations.",
+   note="Per-session order only. Search budget exhaustion is inconclusive. Multi-thread legs are stress.", ref="6 C10"),
 }
 
 def main():
